@@ -9,8 +9,28 @@ import OW.Proofs.RealNum
 import OW.Kernels.Registry
 /-!
 C06 — hot-start continuity: a split run reproduces the uninterrupted run.
-For each stateful kernel model `M`: `HotStart M.model` (exact; over any `Num α`, hence also for the `Float`
-instance the code is compared with): nothing that influences future outputs is outside the state row.
+
+`HotStart km` (OW/Proofs/HotStart.lean): for every parameter column, initial state row, pair of consecutive input blocks
+(any lengths, also 0 and 1: every split point; several splits follow by iterating) — if both calls of the split run
+succeed, the run over the concatenated inputs succeeds, its outputs are the concatenated outputs and its final state row
+is the final state row of the second call. Exact (no tolerance), structural: the time loop is a `scan` and the packed
+state row is exactly the loop state.
+
+Stateful catalogue models (17):
+* over ANY `Num α` (hence also the `Float` instance the code is compared with), no arithmetic law used:
+  Muskingum, LumpedConstituentRouting, ConstituentDecay, StorageDissolvedDecay, StorageParticulateTrapping,
+  InstreamCoarseSediment, InstreamParticulateNutrient, Simhyd, Surm, Lag, Storage;
+* over any `Num α` given ONE arithmetic law, instantiated at ℝ:
+  GR4J (`IntRoundTrip`: n1, n2 survive float ↔ int; `roundtrip_GR4J` = extract ∘ pack = id),
+  StorageTrapAll (`y + 0.0 = y`; false in IEEE only for y = −0.0);
+* FALSE as stated — counter-example (ℝ) + `…_partial` under the hypothesis that removes the leak:
+  Sacramento (unit-hydrograph buffer is a local: partial = no spreading, uh2..uh5 = 0),
+  InstreamDissolvedNutrientDecay (`prevVolume` re-seeded: partial = decay disabled),
+  StorageRouting (root-finder seed `qi` is a local: partial = seed equal to a fresh call's; exact split law
+  `storageRouting_split`; the difference is within the solver tolerance the property allows),
+  InstreamFineSediment (a negative channel store is re-read as a fraction at each call: partial = store not negative
+  at the split; `hotstart_InstreamFineSediment_real`: never happens when the maximum storage is ≥ 0).
+Summary theorem over the catalogue: `OW.Props.C14.hotstart_catalogue`.
 -/
 set_option linter.unusedSimpArgs false
 set_option linter.unusedVariables false
@@ -475,7 +495,8 @@ theorem storageRouting_split (bias k x area dead dt s : α) (xs ys : List (α ×
           (StorageRouting.run bias k x area dead dt s xs).1 ys).2) := by
   unfold StorageRouting.run; rw [scan_append]
 
-/-- Full statement (FALSE for the model and the code): `HotStart StorageRouting.model`. A second call starts its first
+/-- Full statement (FALSE for the model and the code; counter-example `hotstart_StorageRouting_counterexample` below):
+`HotStart StorageRouting.model`. A second call starts its first
 root search from `qi = 0.0` instead of the index flow of the previous step (`storageRouting_split`), which changes which
 exit of `calcOutflow` is taken (`prev-qi` vs `mid-qi`/`root`): the two results both satisfy the mass-balance tolerance
 (1e-3 m³) but are not bit-identical — this is the "to within the solver's own mass-balance tolerance" clause of the
@@ -882,5 +903,285 @@ theorem hotstart_Sacramento_counterexample : ¬ HotStart (Sacramento.model (α :
   have := hout.2.1.2
   norm_num at this
 end SacramentoCounter
+
+/-! ### InstreamFineSediment: counter-example for unphysical parameters (ℝ) -/
+section FineCounter
+attribute [-simp] OW.RealNum.ofNat_eq
+
+/-- parameters of the counter-example (NOT physically meaningful: `propBankHeightForFineDep = -1` makes the maximum
+channel storage −1000 kg) -/
+noncomputable def fineP : InstreamFineSediment.Params ℝ := ⟨1, 0, 0, 1, 1, 1, 1, -1, 1, 1, 1, 1, 1⟩
+
+theorem fine_start_eval (c : ℝ) (hc : c < 0) : InstreamFineSediment.start fineP (c, 0) = (-c * -1000, 0) := by
+  unfold InstreamFineSediment.start InstreamFineSediment.initStore InstreamFineSediment.lumped InstreamFineSediment.maxStorage
+  simp only [fineP]
+  realnum
+  norm_num
+  rw [if_pos hc, abs_of_neg hc]
+  ring
+
+theorem fine_not_lumped : InstreamFineSediment.lumped fineP = false := by
+  unfold InstreamFineSediment.lumped
+  simp only [fineP]
+  realnum
+  have : ¬ ((1:ℝ) ≤ 1e-8) := by norm_num
+  simp only [this, decide_false]
+
+theorem fine_step_eval (c : ℝ) :
+    (InstreamFineSediment.step fineP (c, 0) (0, 0, 0, 0, 0)).1 = (c, 0) := by
+  unfold InstreamFineSediment.step
+  rw [fine_not_lumped]
+  simp only [Bool.false_eq_true, if_false]
+  unfold InstreamFineSediment.stepMain InstreamFineSediment.inChannelStorage InstreamFineSediment.floodPlainDepositionEmperical
+  simp only [fineP]
+  realnum
+  norm_num
+
+theorem fine_run_state (c : ℝ) (hc : c < 0) (n : Nat) :
+    (InstreamFineSediment.run fineP (c, 0) (List.replicate n (0, 0, 0, 0, 0))).1 = (-c * -1000, 0) := by
+  unfold InstreamFineSediment.run
+  rw [fine_start_eval c hc]
+  generalize -c * -1000 = d
+  induction n generalizing d with
+  | zero => rfl
+  | succ n ih =>
+    simp only [List.replicate, scan]
+    rw [fine_step_eval d]
+    exact ih d
+
+noncomputable def fineCol : List ℝ := [1, 0, 0, 1, 1, 1, 1, -1, 1, 1, 1, 1, 1]
+
+theorem fine_run_eq (c : ℝ) (a1 a2 a3 a4 a5 : List ℝ) :
+    ∃ outs tg, (InstreamFineSediment.model (α := ℝ)).run fineCol [a1, a2, a3, a4, a5] [c, 0] =
+      .ok { outputs := outs,
+            states := [(InstreamFineSediment.run fineP (c, 0) (zip5 a1 a2 a3 a4 a5)).1.1,
+                       (InstreamFineSediment.run fineP (c, 0) (zip5 a1 a2 a3 a4 a5)).1.2], tags := tg } :=
+  ⟨_, _, rfl⟩
+
+/-- **Counter-example** for the unrestricted statement (ℝ; needs a NEGATIVE maximum storage, i.e. parameters outside their
+physical range — for maximum storage ≥ 0 see `hotstart_InstreamFineSediment_real`): dry reach, initial channel store −1
+("100 % of the maximum storage"), maximum storage −1000. Uninterrupted run: the store is converted once, −1000. Split run:
+the second call reads the carried −1000 as a fraction again and converts it to −1 000 000. -/
+theorem hotstart_InstreamFineSediment_counterexample : ¬ HotStart (InstreamFineSediment.model (α := ℝ)) := by
+  intro h
+  obtain ⟨o1, t1, h1⟩ := fine_run_eq (-1) [0] [0] [0] [0] [0]
+  obtain ⟨o2, t2, h2⟩ := fine_run_eq (-(-1) * -1000) [0] [0] [0] [0] [0]
+  obtain ⟨ow, tw, hw⟩ := fine_run_eq (-1) [0, 0] [0, 0] [0, 0] [0, 0] [0, 0]
+  have r1 := fine_run_state (-1) (by norm_num) 1
+  have r2 := fine_run_state (-(-1) * -1000) (by norm_num) 1
+  have rw' := fine_run_state (-1) (by norm_num) 2
+  simp only [List.replicate] at r1 r2 rw'
+  simp only [zip5, r1, r2, rw'] at h1 h2 hw
+  obtain ⟨o, ho, _, hst⟩ := h fineCol [[0], [0], [0], [0], [0]] [[0], [0], [0], [0], [0]] [-1, 0] 1 1 _ _ rfl
+    (by intro s hs; simp at hs; subst hs; rfl)
+    (by intro s hs; simp at hs; subst hs; rfl) h1 h2
+  simp only [catSeries, List.zipWith_cons_cons, List.zipWith_nil_right, List.cons_append, List.nil_append] at ho
+  rw [hw] at ho
+  simp only [Except.ok.injEq] at ho
+  subst ho
+  simp only [List.cons.injEq, and_true] at hst
+  norm_num at hst
+end FineCounter
+
+/-! ### StorageRouting: counter-example (ℝ) -/
+section SRCounter
+attribute [-simp] OW.RealNum.ofNat_eq
+set_option maxRecDepth 4000
+
+macro "sr_eval" : tactic =>
+  `(tactic| (
+    unfold StorageRouting.calcOutflow StorageRouting.solve
+    simp only [StorageRouting.mkCtx, StorageRouting.runRouting, StorageRouting.rr, StorageRouting.sIndex, StorageRouting.newStorage,
+      StorageRouting.netEvaporationFlux, StorageRouting.maxQI, StorageRouting.massBalanceLimit, StorageRouting.linearZone,
+      RealNum.isNaN_eq]
+    realnum
+    norm_num))
+
+/-- step 1 of the counter-example (empty reach, inflow 2, fresh seed): the midpoint 1 of the bracket [0, 2] balances exactly -/
+theorem sr_calc_A (o : ℝ) :
+    StorageRouting.calcOutflow (α := ℝ) 2 0 0 0 o 0 0 0 0 1 1 1 0 1 0 = .ok ⟨1, 1, 1, "mid-qi"⟩ := by sr_eval
+
+/-- step 2, uninterrupted run (storage 1, inflow 1.0005, seed = index flow 1 of step 1): the seed misses the balance by
+0.0005 m³ < 1e-3 and is accepted as it is -/
+theorem sr_calc_B (o : ℝ) :
+    StorageRouting.calcOutflow (α := ℝ) (2001 / 2000) 0 0 1 o 1 0 0 0 1 1 1 0 1 0 = .ok ⟨1, 2001 / 2000, 1, "prev-qi"⟩ := by sr_eval
+
+/-- step 2, second call of a split run (same storage and inflow, fresh seed 0): the midpoint 1.00025 balances exactly -/
+theorem sr_calc_C (o : ℝ) :
+    StorageRouting.calcOutflow (α := ℝ) (2001 / 2000) 0 0 0 o 1 0 0 0 1 1 1 0 1 0 = .ok ⟨4001 / 4000, 4001 / 4000, 4001 / 4000, "mid-qi"⟩ := by sr_eval
+
+theorem sr_setup : StorageRouting.setup (α := ℝ) 0 1 1 1 = ⟨0, 1, 1, 0, 0⟩ := by
+  unfold StorageRouting.setup
+  realnum
+  norm_num
+
+theorem sr_step (qi o S i inflow : ℝ) (r : StorageRouting.CO ℝ)
+    (h : StorageRouting.calcOutflow (α := ℝ) inflow 0 0 qi o S 0 0 0 1 1 1 0 1 0 = .ok r) :
+    StorageRouting.step (α := ℝ) ⟨0, 1, 1, 0, 0⟩ 1 0 0 1 (.ok ⟨qi, o, S, i⟩) (inflow, 0, 0, 0) =
+      (.ok ⟨r.qi, r.outflow, r.storage, inflow⟩, ⟨r.outflow, r.storage, r.tag⟩) := by
+  unfold StorageRouting.step
+  simp only
+  realnum
+  have e : ((0:ℝ) - 0) / 1 = 0 := by norm_num
+  rw [e, h]
+
+/-- the three runs of the counter-example -/
+theorem sr_run_a : StorageRouting.run (α := ℝ) 0 1 1 0 0 1 0 (zip4 [2] [0] [0] [0]) =
+    (.ok ⟨1, 1, 1, 2⟩, [⟨1, 1, "mid-qi"⟩]) := by
+  unfold StorageRouting.run
+  rw [sr_setup]
+  have z : (0.0 : ℝ) = 0 := by norm_num
+  simp only [zip4, scan, z, sr_step _ _ _ _ _ _ (sr_calc_A 0)]
+
+theorem sr_run_b : StorageRouting.run (α := ℝ) 0 1 1 0 0 1 1 (zip4 [2001 / 2000] [0] [0] [0]) =
+    (.ok ⟨4001 / 4000, 4001 / 4000, 4001 / 4000, 2001 / 2000⟩, [⟨4001 / 4000, 4001 / 4000, "mid-qi"⟩]) := by
+  unfold StorageRouting.run
+  rw [sr_setup]
+  have z : (0.0 : ℝ) = 0 := by norm_num
+  simp only [zip4, scan, z, sr_step _ _ _ _ _ _ (sr_calc_C 0)]
+
+theorem sr_run_w : StorageRouting.run (α := ℝ) 0 1 1 0 0 1 0 (zip4 [2, 2001 / 2000] [0, 0] [0, 0] [0, 0]) =
+    (.ok ⟨1, 2001 / 2000, 1, 2001 / 2000⟩, [⟨1, 1, "mid-qi"⟩, ⟨2001 / 2000, 1, "prev-qi"⟩]) := by
+  unfold StorageRouting.run
+  rw [sr_setup]
+  have z : (0.0 : ℝ) = 0 := by norm_num
+  simp only [zip4, scan, z, sr_step _ _ _ _ _ _ (sr_calc_A 0), sr_step _ _ _ _ _ _ (sr_calc_B 1)]
+
+/-- **Counter-example**, ℝ (linear reach k = 1 s, Δt = 1 s, no bias; inflow 2 then 1.0005 m³/s into an empty reach). Both
+runs close the mass balance of step 2 within the solver's 1e-3 m³: the uninterrupted run accepts the index flow of step 1
+as it is (outflow 1.0005, storage 1), the split run — whose second call seeds its search with 0 — lands on the exact root
+(outflow 1.00025, storage 1.00025). The difference, 0.00025, is inside the tolerance the property allows for this model. -/
+theorem hotstart_StorageRouting_counterexample : ¬ HotStart (StorageRouting.model (α := ℝ)) := by
+  intro h
+  have h1 : (StorageRouting.model (α := ℝ)).run [0, 1, 1, 0, 0, 1] [[2], [0], [0], [0]] [0, 0, 0] =
+      .ok { outputs := [[1], [1]], states := [1, 2, 1], tags := ["mid-qi"] } := by
+    unfold StorageRouting.model
+    simp only [sr_run_a, List.map_cons, List.map_nil]
+    rfl
+  have h2 : (StorageRouting.model (α := ℝ)).run [0, 1, 1, 0, 0, 1] [[2001 / 2000], [0], [0], [0]] [1, 2, 1] =
+      .ok { outputs := [[4001 / 4000], [4001 / 4000]], states := [4001 / 4000, 2001 / 2000, 4001 / 4000], tags := ["mid-qi"] } := by
+    unfold StorageRouting.model
+    simp only [sr_run_b, List.map_cons, List.map_nil]
+    rfl
+  have hw : (StorageRouting.model (α := ℝ)).run [0, 1, 1, 0, 0, 1] [[2, 2001 / 2000], [0, 0], [0, 0], [0, 0]] [0, 0, 0] =
+      .ok { outputs := [[1, 2001 / 2000], [1, 1]], states := [1, 2001 / 2000, 2001 / 2000], tags := ["mid-qi", "prev-qi"] } := by
+    unfold StorageRouting.model
+    simp only [sr_run_w, List.map_cons, List.map_nil]
+    rfl
+  obtain ⟨o, ho, hout, _⟩ := h [0, 1, 1, 0, 0, 1] [[2], [0], [0], [0]] [[2001 / 2000], [0], [0], [0]] [0, 0, 0] 1 1 _ _ rfl
+    (by intro s hs; simp at hs; rcases hs with rfl | rfl <;> rfl)
+    (by intro s hs; simp at hs; rcases hs with rfl | rfl <;> rfl) h1 h2
+  simp only [catSeries, List.zipWith_cons_cons, List.zipWith_nil_right, List.cons_append, List.nil_append] at ho hout
+  rw [hw] at ho
+  simp only [Except.ok.injEq] at ho
+  subst ho
+  simp only [List.cons.injEq, and_true] at hout
+  norm_num at hout
+/-- non-vacuity of `hotstart_StorageRouting_partial` (ℝ): a zero-flow step leaves the index flow at the value a fresh call
+starts from (`f.qi = 0.0`), so its side condition `hqi` is met by a split after such a step -/
+example : ∃ f outs, StorageRouting.run (α := ℝ) 0 1 1 0 0 1 0 (zip4 [0] [0] [0] [0]) = (.ok f, outs) ∧ f.qi = 0.0 := by
+  have hz : StorageRouting.calcOutflow (α := ℝ) 0 0 0 0 0 0 0 0 0 1 1 1 0 1 0 = .ok ⟨0, 0, 0, "balanced-at-minqi"⟩ := by sr_eval
+  have z : (0.0 : ℝ) = 0 := by norm_num
+  refine ⟨⟨0, 0, 0, 0⟩, [⟨0, 0, "balanced-at-minqi"⟩], ?_, by norm_num⟩
+  unfold StorageRouting.run
+  rw [sr_setup]
+  simp only [zip4, scan, z, sr_step _ _ _ _ _ _ hz]
+
+/-- Storage (ℝ), non-vacuity on the early-return path: a volume table whose maximum is 0 is an invalid configuration; both
+calls of a split succeed (zero outputs, zero states). The main path is exercised on a concrete run in OW/Props/C13.lean
+(`OW.Proofs.StorageExample.runEx`) -/
+example : ∃ o₁ o₂, (Storage.model (α := ℝ)).run [86400, Num.ofNat 1, 1, 0, 1, 0, 0] [[1, 2], [0, 0], [0, 0], [0, 0], [0, 0], [0, 0]] [0, 0, 0] = .ok o₁ ∧
+    (Storage.model (α := ℝ)).run [86400, Num.ofNat 1, 1, 0, 1, 0, 0] [[1], [0], [0], [0], [0], [0]] o₁.states = .ok o₂ := by
+  have e1 : Num.toInt (Num.ofNat 1 : ℝ) = 1 := intRoundTrip_real 1
+  have h : ∀ r a2 a3 a4 a5 a6 s0 s1 s2, ∃ z, (Storage.model (α := ℝ)).run [86400, Num.ofNat 1, 1, 0, 1, 0, 0] [r, a2, a3, a4, a5, a6] [s0, s1, s2] =
+      .ok { outputs := z, states := [Num.zero, Num.zero, Num.zero], tags := ["config-invalid"] } := by
+    intro r a2 a3 a4 a5 a6 s0 s1 s2
+    simp [Storage.model, e1, Storage.splitTables, Storage.mkTables, Storage.getAt, Storage.checkConfig, Storage.maximum,
+      bind, Except.bind, pure, Except.pure]
+    realnum
+    simp only [le_refl, if_true]
+    exact ⟨_, rfl⟩
+  obtain ⟨z1, h1⟩ := h [1, 2] [0, 0] [0, 0] [0, 0] [0, 0] [0, 0] 0 0 0
+  obtain ⟨z2, h2⟩ := h [1] [0] [0] [0] [0] [0] Num.zero Num.zero Num.zero
+  exact ⟨_, _, h1, h2⟩
+end SRCounter
+
+/-! ### non-vacuity: a concrete two-part split whose two calls both succeed (the hypotheses of `HotStart`) -/
+example : ∃ o₁ o₂, (LumpedConstituent.model (α := Float)).run [0, 0.5, 86400] [[1, 2], [0, 1], [3, 0], [10, 20]] [0] = .ok o₁ ∧
+    (LumpedConstituent.model (α := Float)).run [0, 0.5, 86400] [[5], [0], [1], [2]] o₁.states = .ok o₂ := ⟨_, _, rfl, rfl⟩
+example : ∃ o₁ o₂, (ConstituentDecay.model (α := Float)).run [0, 3600, 86400] [[1, 2], [0, 1], [3, 0], [3, 0], [10, 20]] [0] = .ok o₁ ∧
+    (ConstituentDecay.model (α := Float)).run [0, 3600, 86400] [[5], [0], [1], [1], [2]] o₁.states = .ok o₂ := ⟨_, _, rfl, rfl⟩
+example : ∃ o₁ o₂, (StorageDissolvedDecay.model (α := Float)).run [86400, 1, 2, 5, 3] [[1, 2], [0, 1], [3, 0], [10, 20]] [0] = .ok o₁ ∧
+    (StorageDissolvedDecay.model (α := Float)).run [86400, 1, 2, 5, 3] [[5], [0], [1], [2]] o₁.states = .ok o₂ := ⟨_, _, rfl, rfl⟩
+example : ∃ o₁ o₂, (StorageParticulateTrapping.model (α := Float)).run [86400, 1e6, 1000, 100, 800, 3.28, -0.2] [[1, 2], [0, 1], [3, 0], [10, 20]] [0] = .ok o₁ ∧
+    (StorageParticulateTrapping.model (α := Float)).run [86400, 1e6, 1000, 100, 800, 3.28, -0.2] [[5], [0], [1], [2]] o₁.states = .ok o₂ := ⟨_, _, rfl, rfl⟩
+example : ∃ o₁ o₂, (InstreamCoarseSediment.model (α := Float)).run [86400] [[1, 2], [0, 1], [3, 0]] [0, 0] = .ok o₁ ∧
+    (InstreamCoarseSediment.model (α := Float)).run [86400] [[5], [0], [1]] o₁.states = .ok o₂ := ⟨_, _, rfl, rfl⟩
+example : ∃ o₁ o₂, (InstreamParticulateNutrient.model (α := Float)).run [0.1, 0.2, 86400] [[1, 2], [0, 1], [3, 0], [1, 1], [2, 2], [3, 3], [4, 4], [5, 5]] [0, 0] = .ok o₁ ∧
+    (InstreamParticulateNutrient.model (α := Float)).run [0.1, 0.2, 86400] [[5], [0], [1], [1], [1], [1], [1], [1]] o₁.states = .ok o₂ := ⟨_, _, rfl, rfl⟩
+example : ∃ o₁ o₂, (Simhyd.model (α := Float)).run [0.3, 0.3, 200, 1, 1.5, 0.1, 0.1, 0.9, 200] [[10, 0], [3, 4]] [0, 0, 0] = .ok o₁ ∧
+    (Simhyd.model (α := Float)).run [0.3, 0.3, 200, 1, 1.5, 0.1, 0.1, 0.9, 200] [[5], [2]] o₁.states = .ok o₂ := ⟨_, _, rfl, rfl⟩
+example : ∃ o₁ o₂, (Surm.model (α := Float)).run [0.3, 0.3, 200, 1, 1.5, 0.1, 0.1, 0.9, 200] [[10, 0], [3, 4]] [0, 0, 0] = .ok o₁ ∧
+    (Surm.model (α := Float)).run [0.3, 0.3, 200, 1, 1.5, 0.1, 0.1, 0.9, 200] [[5], [2]] o₁.states = .ok o₂ := ⟨_, _, rfl, rfl⟩
+example : ∃ o₁ o₂, (StorageTrapAll.model (α := Float)).run [] [[1, 2], [0, 1], [3, 0], [10, 20]] [7] = .ok o₁ ∧
+    (StorageTrapAll.model (α := Float)).run [] [[5], [0], [1], [2]] o₁.states = .ok o₂ := ⟨_, _, rfl, rfl⟩
+example : ∃ o₁ o₂, (InstreamFineSediment.model (α := Float)).run [5, 1e-5, 1e4, 10, 1000, 0.001, 2, 0.5, 1.5, 0.04, 1e-5, 1e-6, 86400] [[1, 2], [0, 1], [3, 0], [1e4, 1e4], [2, 3]] [0, 0] = .ok o₁ ∧
+    (InstreamFineSediment.model (α := Float)).run [5, 1e-5, 1e4, 10, 1000, 0.001, 2, 0.5, 1.5, 0.04, 1e-5, 1e-6, 86400] [[5], [0], [1], [1e4], [2]] o₁.states = .ok o₂ := ⟨_, _, rfl, rfl⟩
+example : ∃ o₁ o₂, (Sacramento.model (α := Float)).run [0.01, 0.1, 0.3, 50, 40, 130, 25, 60, 0.1, 1, 40, 0, 0, 0.5, 0, 0, 0, 1, 0, 0, 0, 0] [[2, 0], [0, 1]] [0, 0, 0, 0, 0, 0] = .ok o₁ ∧
+    (Sacramento.model (α := Float)).run [0.01, 0.1, 0.3, 50, 40, 130, 25, 60, 0.1, 1, 40, 0, 0, 0.5, 0, 0, 0, 1, 0, 0, 0, 0] [[3], [1]] o₁.states = .ok o₂ := ⟨_, _, rfl, rfl⟩
+
+section NonVacuityReal
+attribute [-simp] OW.RealNum.ofNat_eq
+
+/-- Lag (ℝ): lag 2, a 3-step part then a 1-step part -/
+example : ∃ o₁ o₂, (Lag.model (α := ℝ)).run [Num.ofNat 2] [[5, 6, 7]] [1, 2] = .ok o₁ ∧
+    (Lag.model (α := ℝ)).run [Num.ofNat 2] [[8]] o₁.states = .ok o₂ := by
+  have e : Num.toInt (Num.ofNat 2 : ℝ) = 2 := intRoundTrip_real 2
+  refine ⟨⟨[[1, 2, 5]], [6, 7], ["lag<T"]⟩, ⟨[[6]], [7, 8], ["lag>T"]⟩, ?_, ?_⟩
+  · simp [Lag.model, Lag.run, e, Lag.lagCore, Lag.forLoop, zeros]
+  · simp [Lag.model, Lag.run, e, Lag.lagCore, Lag.forLoop, zeros]
+
+/-- GR4J (ℝ): n1 = 1, n2 = 2 (x4 = 1), state row [S, R, 1, 2, q1a, q1b, q9a]: the call succeeds, and the row it returns is
+again a well-formed packed row (`OW.Proofs.GR4JHot.roundtrip_GR4J`, `run_len`) -/
+example : ∃ o₁, (GR4J.model (α := ℝ)).run [350, 0, 90, 1] [[10, 0], [1, 2]] [100, 30, Num.ofNat 1, Num.ofNat 2, 0, 0, 0] = .ok o₁ := by
+  have e1 : Num.toInt (Num.ofNat 1 : ℝ) = 1 := intRoundTrip_real 1
+  have e2 : Num.toInt (Num.ofNat 2 : ℝ) = 2 := intRoundTrip_real 2
+  simp [GR4J.model, e1, e2]
+
+/-- InstreamDissolvedNutrientDecay, decay disabled (ℝ): the side condition of the partial theorem and both calls -/
+example : DecayDisabled [(0:ℝ), 0, 1, 1, 1, 0, 86400] [] [] ∧
+    ∃ o₁ o₂, (InstreamDissolvedNutrient.model (α := ℝ)).run [0, 0, 1, 1, 1, 0, 86400] [[1, 2], [0, 0], [5, 6], [1, 1], [0, 0]] [0] = .ok o₁ ∧
+      (InstreamDissolvedNutrient.model (α := ℝ)).run [0, 0, 1, 1, 1, 0, 86400] [[3], [0], [5], [1], [0]] o₁.states = .ok o₂ := by
+  have hd : (0:ℝ) < 0.5 := by norm_num
+  refine ⟨⟨0, _, rfl, hd⟩, ?_⟩
+  have h1 : ∃ o₁, (InstreamDissolvedNutrient.model (α := ℝ)).run [0, 0, 1, 1, 1, 0, 86400] [[1, 2], [0, 0], [5, 6], [1, 1], [0, 0]] [0] = .ok o₁ ∧
+      ∃ s, o₁.states = [s] := by
+    simp only [InstreamDissolvedNutrient.model]
+    realnum
+    simp only [if_pos hd]
+    exact ⟨_, rfl, _, rfl⟩
+  obtain ⟨o₁, h1, s, hs⟩ := h1
+  have h2 : ∃ o₂, (InstreamDissolvedNutrient.model (α := ℝ)).run [0, 0, 1, 1, 1, 0, 86400] [[3], [0], [5], [1], [0]] o₁.states = .ok o₂ := by
+    rw [hs]
+    simp only [InstreamDissolvedNutrient.model]
+    realnum
+    simp only [if_pos hd]
+    exact ⟨_, rfl⟩
+  obtain ⟨o₂, h2⟩ := h2
+  exact ⟨o₁, o₂, h1, h2⟩
+
+/-- Sacramento: the side condition of the partial theorem is satisfiable (ℝ) -/
+example : SacramentoNoSpread [0.01, 0.1, 0.3, 50, 40, 130, 25, 60, 0.1, 1, 40, 0, 0, 0.5, 0, 0, 0, 1, 0, 0, 0, 0] [] [] :=
+  ⟨_, _, _, _, _, _, _, _, _, _, _, _, _, _, _, _, _, _, rfl, by norm_num, by norm_num⟩
+
+/-- InstreamFineSediment: physically meaningful geometry has a non-negative maximum storage (ℝ) -/
+example : FineSedimentMaxStorageNonneg [5, 1e-5, 1e4, 10, 1000, 0.001, 2, 0.5, 1.5, 0.04, 1e-5, 1e-6, 86400] [] [] := by
+  intro bff vfl fpa lw ll ls bh pbh sbd mn vs vr dt h
+  simp only [List.cons.injEq, and_true] at h
+  obtain ⟨rfl, rfl, rfl, rfl, rfl, rfl, rfl, rfl, rfl, rfl, rfl, rfl, rfl⟩ := h
+  simp only [InstreamFineSediment.maxStorage]
+  realnum
+  norm_num
+end NonVacuityReal
 
 end OW.Props.C06
